@@ -43,12 +43,25 @@ class Multiline:
             "Inconsistent values for header tag {} found\n".format(tagname)+
             "Previous definition: {}\n".format(prev)+
             "Current definition: {}".format(value))
-      prev = gfapy.FieldArray(self.get_datatype(tagname), [prev])
-      self._set_existing_field(tagname, prev)
-    if self.vlevel > 1:
-      prev._vpush(value, datatype, tagname)
+      created = gfapy.FieldArray(self.get_datatype(tagname), [prev])
     else:
-      prev.append(value)
+      created = None
+    values = prev if created is None else created
+    if datatype is not None and datatype != values.datatype:
+      # (at every level: the values of a tag have one datatype)
+      raise gfapy.InconsistencyError(
+        "Datatype mismatch error for header tag {}:\n".format(tagname)+
+        "value: {}\n".format(value)+
+        "existing datatype: {};\n".format(values.datatype)+
+        "new datatype: {}".format(datatype))
+    if self.vlevel > 1:
+      values._vpush(value, datatype, tagname)
+    else:
+      values.append(value)
+    if created is not None:
+      # the single value is replaced by the array only if the new value
+      # was accepted
+      self._set_existing_field(tagname, created)
 
   def field_to_s(self, fieldname, tag = False):
     """
